@@ -11,3 +11,6 @@ Qed.
 
 Theorem life_run_ok prog : life_ok (life_run prog) = true.
 Proof. unfold life_run, life_ok. cbn. apply loop_ok. Qed.
+
+Theorem life_run_ctx_ok d prog : life_ok (life_run_ctx d prog) = true.
+Proof. unfold life_run_ctx, life_ok. cbn [app]. destruct d; [destruct prog; reflexivity|apply loop_ok]. Qed.
